@@ -578,6 +578,7 @@ class Blockwise(ArrayExpr):
 
         # Shuffle each array input on the corresponding axis
         new_args = []
+        any_shuffled = False
         for arr, ind in toolz.partition(2, self.args):
             if ind is None:
                 # Literal argument
@@ -585,11 +586,22 @@ class Blockwise(ArrayExpr):
             elif shuffle_ind in ind:
                 # Find the axis in this input that corresponds to shuffle_ind
                 input_axis = ind.index(shuffle_ind)
+                if arr.shape[input_axis] == 1 and self.shape[axis] != 1:
+                    # A size-1 axis broadcast against a longer output axis
+                    # serves every position; there is nothing to shuffle.
+                    new_args.extend([arr, ind])
+                    continue
                 shuffled = Shuffle(arr, shuffle_expr.indexer, input_axis, shuffle_expr.operand("name"))
                 new_args.extend([shuffled, ind])
+                any_shuffled = True
             else:
                 # This input doesn't have the shuffle dimension
                 new_args.extend([arr, ind])
+
+        if not any_shuffled:
+            # Every input broadcasts on the shuffle axis: the rewrite would
+            # drop the shuffle (and a take-style indexer changes the extent).
+            return None
 
         return Blockwise(
             self.func,
